@@ -554,12 +554,15 @@ def check_C01(tier):
     chk.cov["rule"] = ("TLC enumerates every acyclic program on N commands (every edge absent/direct/listed, optional failing command) "
                        "and every history of run()/result(c) calls; each terminal state is replayed on the real engine with probe commands "
                        "(spec->code: outcome, execution counts, Herbrand values) and the recorded event trace is validated by TLC against "
-                       "MPRunAbsTrace (code->spec). non-trivial = program has a shared dependency, a list reference, or a history longer than one call")
+                       "MPRunAbsTrace (code->spec); random five-command acyclic programs are replayed and validated the same way. non-trivial = program has a shared dependency, a list reference, or a history longer than one call")
     chk.cov["exhaustive"] = True
     chk.assumptions += ["Probe commands read every referenced result and return the term of what they read",
                         "the tracer wraps Command.result, Command.validate_params and every registered execute()"]
     decide(chk, "C01", jobs, variants, max_replays=70000 if tier == "quick" else 600000)
     repo_test_traces(chk, "C01")
+    from . import engine_big
+
+    engine_big.check(chk, "C01", tier, cyclic=False)
     tlaps_abs(chk)
     return chk.finish()
 
@@ -577,9 +580,13 @@ def check_C14(tier):
         variants = [(core.SEED + i) % 12 for i in (0, 1)]
     chk.cov["rule"] = ("TLC enumerates every program on N commands whose reference graph has a cycle (self-loops, 2-cycles, longer, tails, "
                        "separate acyclic parts; every edge direct or listed) and every history of run()/result(c); each terminal state is "
-                       "replayed on the real engine (recursion limit lowered to 400) and its trace validated against MPRunAbsTrace. "
+                       "replayed on the real engine (recursion limit lowered to 400) and its trace validated against MPRunAbsTrace; random five-command cyclic programs "
+                       "(the bound the property states) are replayed and validated the same way (the trace specification takes the program from the trace). "
                        "non-trivial = all (every program is cyclic); distinct by (program, history)")
     chk.cov["exhaustive"] = True
     chk.assumptions += ["interpreter recursion limit lowered to 400 during replays (stack exhaustion shows as RecursionError cause)"]
     decide(chk, "C14", jobs, variants, strict_counts=False, max_replays=40000 if tier == "quick" else 600000)
+    from . import engine_big
+
+    engine_big.check(chk, "C14", tier, cyclic=True)
     return chk.finish()
